@@ -324,6 +324,21 @@ impl Transaction {
     }
 }
 
+/**
+ * Verification hook (compiled only with `--cfg bsv_verif`): read-only view of the three memoised sighash sub-hashes
+ * in the order (hashPrevouts, hashSequence, hashOutputs).
+ */
+#[cfg(bsv_verif)]
+impl Transaction {
+    pub fn verif_hash_cache(&self) -> [Option<Vec<u8>>; 3] {
+        [
+            self.hash_cache.hash_inputs.as_ref().map(|h| h.to_bytes()),
+            self.hash_cache.hash_sequence.as_ref().map(|h| h.to_bytes()),
+            self.hash_cache.hash_outputs.as_ref().map(|h| h.to_bytes()),
+        ]
+    }
+}
+
 impl Transaction {
     pub fn verify(&self, pub_key: &PublicKey, sig: &SighashSignature) -> bool {
         ECDSA::verify_digest_impl(&sig.sighash_buffer, pub_key, &sig.signature, crate::SigningHash::Sha256d).unwrap_or(false)
